@@ -1,6 +1,7 @@
 //! vp_sample — C01, C02, C03, C15 (sample / frame level).
 mod c01;
 mod c02;
+mod c03;
 mod c15;
 mod table;
 
@@ -11,6 +12,7 @@ fn main() {
     match ctx.id.as_str() {
         "C01" => c01::run(&mut ctx),
         "C02" => c02::run(&mut ctx),
+        "C03" => c03::run(&mut ctx),
         "C15" => c15::run(&mut ctx),
         other => {
             eprintln!("vp_sample: unknown property {}", other);
